@@ -38,6 +38,10 @@ inductive Item
   | pingAck (d : Bytes)
 deriving Repr, DecidableEq, Inhabited
 
+def Item.isGoAway : Item → Bool
+  | .goAway _ _ _ => true
+  | _ => false
+
 inductive Wire
   | G (id code : Nat)
   | P (d : Bytes)
@@ -69,14 +73,19 @@ structure State where
   peerGone : Bool
   readerDone : Bool
   done : Bool                   -- close(t.done)
-  finalGoAway : Option Nat      -- ghost: last-stream-id of the final GOAWAY, once written
+  finalGoAway : Option Nat      -- ghost: last-stream-id of the (first) final GOAWAY of a graceful drain, once written
+  hdrPending : Option Nat       -- the reader is inside operateHeaders for this stream id, between `t.maxStreamID = streamID`
+                                -- and the `t.state` check; it holds t.maxStreamMu (Lock(); defer Unlock() at the top)
+  dropped : List Nat            -- ghost: HEADERS silently dropped (`t.state != reachable` → `s.cancel(); return nil`)
+  errGoAway : Bool              -- ghost: a GOAWAY with closeConn (protocol violation / too many pings) was handled
 deriving Repr, DecidableEq, Inhabited
 
 def init : State :=
   { now := 0, tstate := .reachable, maxStreamID := 0, drainStarted := false, drainFired := false, streams := [],
     activeNil := false, cbuf := [], cbufClosed := false, lDraining := false, estd := [], lExited := false,
     lBlocked := false, lResume := none, wbuf := [], held := false, waiter := none, closeTimer := none,
-    connClosed := false, peerGone := false, readerDone := false, done := false, finalGoAway := none }
+    connClosed := false, peerGone := false, readerDone := false, done := false, finalGoAway := none,
+    hdrPending := none, dropped := [], errGoAway := false }
 
 def maxU31 : Nat := 2147483647
 
@@ -103,40 +112,54 @@ def State.close (s : State) : State :=
 
 /-- the reader loop ends: `t.Close(err)`, `close(t.readerDone)` -/
 def State.readerExit (s : State) : State :=
-  if s.readerDone then s else { s.close with readerDone := true }
+  if s.readerDone || s.hdrPending.isSome then s else { s.close with readerDone := true }
 
-/-- `operateHeaders` for a well-formed gRPC request (no END_STREAM) -/
-def State.onHeaders (s : State) (sid : Nat) : State :=
-  if s.readerDone then s else
+/-- `operateHeaders` for a well-formed gRPC request (no END_STREAM), first half: `maxStreamMu.Lock()`, the
+stream-id check and `t.maxStreamID = streamID`.  The reader then parses the header fields and builds the
+stream's context while still holding `maxStreamMu`. -/
+def State.hdrA (s : State) (sid : Nat) : State :=
+  if s.readerDone || s.hdrPending.isSome then s else
   if sid % 2 ≠ 1 || sid ≤ s.maxStreamID then
-    -- illegal stream id: GOAWAY(PROTOCOL_ERROR) and close
+    -- illegal stream id: GOAWAY(PROTOCOL_ERROR) and close (the deferred Unlock runs)
     s.put (.goAway false 1 true)
-  else
-    let s := { s with maxStreamID := sid }
-    if s.tstate ≠ .reachable then s      -- dropped silently
+  else { s with maxStreamID := sid, hdrPending := some sid }
+
+/-- second half: under `t.mu`, the `t.state != reachable` drop or the insertion into `activeStreams`,
+`registerStream`, `handle(s)`; `maxStreamMu` is released on return. -/
+def State.hdrB (s : State) : State :=
+  match s.hdrPending with
+  | none => s
+  | some sid =>
+    let s := { s with hdrPending := none }
+    if s.tstate ≠ .reachable then { s with dropped := s.dropped ++ [sid] }      -- dropped silently
     else
       let x : SStrm := { id := sid, active := true, done := false, cancelled := false }
       let s := { s with streams := s.streams ++ [x] }
       s.put (.register sid)              -- … then handle(s)
+
+/-- the whole of `operateHeaders` (nothing else can run in between unless the reader is descheduled) -/
+def State.onHeaders (s : State) (sid : Nat) : State := (s.hdrA sid).hdrB
 
 def State.drain (s : State) : State :=
   if s.drainStarted then s else ({ s with drainStarted := true }).put (.goAway true 0 false)
 
 /-- `handlePing` for an ack -/
 def State.onPingAck (s : State) (d : Bytes) : State :=
-  if s.readerDone then s else
+  if s.readerDone || s.hdrPending.isSome then s else
   if d = goAwayPing && s.drainStarted then { s with drainFired := true } else s
 
 def State.onPing (s : State) (d : Bytes) : State :=
-  if s.readerDone then s else s.put (.pingAck d)
+  if s.readerDone || s.hdrPending.isSome then s else s.put (.pingAck d)
 
 /-- `handleRSTStream` → `closeStream(s, false, 0, false)` -/
 def State.onRST (s : State) (sid : Nat) : State :=
-  if s.readerDone then s else
+  if s.readerDone || s.hdrPending.isSome then s else
+  -- `getStream` fails (never accepted, already deleted, or `activeStreams == nil`): a bare cleanupStream item still goes to
+  -- loopy, whose handler re-checks `draining && len(estdStreams) == 0`
   match s.find sid with
-  | none => s
+  | none => s.put (.cleanup sid false 0)
   | some x =>
-    if !x.active || s.activeNil then s else
+    if !x.active || s.activeNil then s.put (.cleanup sid false 0) else
     (s.updStream sid fun x => { x with cancelled := true, done := true, active := false }).put (.cleanup sid false 0)
 
 /-- the handler returns: `WriteStatus` (trailers-only; the client has not half-closed, so RST follows).
@@ -175,11 +198,20 @@ def State.afterCleanup (s : State) (id : Nat) (rst : Bool) (code : Nat) : State 
 def State.afterFinalFlush (s : State) (retErr : Bool) : State × List Wire :=
   if retErr then s.loopyExit true else ({ s with lDraining := true }, [])
 
+/-- the final-GOAWAY handler under `maxStreamMu`+`mu`: `t.state = draining`, `sid := t.maxStreamID`.  Ghosts: the id
+chosen by the first GOAWAY of a graceful drain (`closeConn == nil`), or the fact that an error GOAWAY was handled. -/
+def State.finalChosen (s : State) (closeConn : Bool) : State :=
+  if closeConn then { s with tstate := TState.draining, errGoAway := true }
+  else { s with tstate := TState.draining,
+                finalGoAway := match s.finalGoAway with | some n => some n | none => some s.maxStreamID }
+
 def State.loopyStep (s : State) : State × List Wire :=
   if s.lExited || s.lBlocked then (s, []) else
   match s.cbuf with
   | [] => (s, [])
   | it :: rest =>
+    -- outgoingGoAwayHandler starts with maxStreamMu.Lock(): it waits while the reader is inside operateHeaders
+    if it.isGoAway && s.hdrPending.isSome then (s, []) else
     let s := { s with cbuf := rest }
     let dead := s.connClosed || s.peerGone
     match it with
@@ -200,11 +232,11 @@ def State.loopyStep (s : State) : State × List Wire :=
         if dead then s.loopyExit false else
         (({ (s.write (.G maxU31 0)).write (.P goAwayPing) with waiter := some (s.now + 5000) }), [])
       else
-        let s := { s with tstate := TState.draining }
+        let s := s.finalChosen closeConn
         let sid := s.maxStreamID
         let retErr := closeConn || s.activeCount == 0
         if dead then s.loopyExit false else
-        let s := { s.write (.G sid code) with finalGoAway := some sid }
+        let s := s.write (.G sid code)
         -- t.framer.writer.Flush()
         if s.held then ({ s with lBlocked := true, lResume := some (some retErr) }, [])
         else
@@ -251,6 +283,8 @@ def State.closeTimerFire (s : State) : State :=
 
 inductive Ev
   | hdr (sid : Nat)
+  | hdrA (sid : Nat)
+  | hdrB
   | drain
   | pingAck (d : Bytes)
   | ping (d : Bytes)
@@ -271,6 +305,8 @@ deriving Repr, DecidableEq, Inhabited
 
 def step (s : State) : Ev → State × List Wire
   | .hdr sid => (s.onHeaders sid, [])
+  | .hdrA sid => (s.hdrA sid, [])
+  | .hdrB => (s.hdrB, [])
   | .drain => (s.drain, [])
   | .pingAck d => (s.onPingAck d, [])
   | .ping d => (s.onPing d, [])
